@@ -128,3 +128,16 @@ package core
 //@ call (*Pool).Add requires[window] t.ValidUntilBlock > height
 //@ call (*Pool).Add requires[size] size <= transaction.MaxTransactionSize
 //@ call (*Pool).Add requires[fee] netFee >= 0
+
+// C06: a pooled transaction stays relevant without re-running its witnesses only when every
+// one of its verification scripts is a standard signature check (whose outcome cannot change
+// with the chain state); any other script forces verifyTxWitnesses.
+//@ prop C06
+//@ import scparser github.com/nspcc-dev/neo-go/pkg/smartcontract/scparser
+//@ func (*Blockchain).IsTxStillRelevant
+//@ may-panic
+//@ opt frame off
+//@ requires bc != nil && t != nil
+//@ ensures[recheck] result && ncalls(verifyTxWitnesses) == 0 ==> forall(i, 0, len(t.Scripts), scparser.stdScript(t.Scripts[i].VerificationScript))
+//@ loop 0 invariant[scan] forall(j, 0, $i, scparser.stdScript(t.Scripts[j].VerificationScript))
+//@ loop 0 invariant[calls] ncalls(verifyTxWitnesses) == 0
